@@ -63,6 +63,10 @@ def sources(tier, seed, ctx):
             srcs.append({'fn': 'eq', 'n': n, 'num': num, 'gen': num % 2 == 0, 'host': _h(rng, 0.4) if num % 2 else None})
             if n >= 2 and num < 2 ** n:
                 srcs.append({'fn': 'eq', 'n': n, 'num': num, 'gen': False, 'host': None, 'rep': True})
+    # wide equality gadgets: constants next to the powers of two of the operand width (and just beyond it)
+    for n in ([33, 49, 52, 64] if tier == 'quick' else [31, 32, 33, 48, 49, 52, 53, 63, 64, 65, 100]):
+        for num in (2 ** n - 1, 2 ** n - 2, 2 ** (n - 1), 2 ** n, 2 ** n + 1, 5):
+            srcs.append({'fn': 'eq', 'n': n, 'num': num, 'gen': True, 'host': None})
     for il in range(1, (4 if tier == 'quick' else 5) + 1):
         for ol in range(1, (6 if tier == 'quick' else 7) + 1):
             for big in (False, True):
@@ -218,7 +222,12 @@ def _record(src):
             fits = num < 2 ** n
             cbits = [bool((num >> j) & 1) for j in range(n)]
             checks = [{'op': 'eq', 'a': list(a), 'fits': fits, 'cbits': cbits, 'out': out}]
-            return A.finish(case, c, pre, rng, [out], checks, om, [out] if om == 'set' else [])
+            # wide operands are sampled: the rows on which the operand IS the constant (and its neighbours) are added
+            extra = []
+            if len(set(a)) == len(a) and all(l in c.inputs for l in a):
+                for v in (num, num ^ 1, num ^ (1 << (n - 1)), (num + 1) % 2 ** n):
+                    extra.append({a[j]: bool((v >> j) & 1) for j in range(n)})
+            return A.finish(case, c, pre, rng, [out], checks, om, [out] if om == 'set' else [], extra_rows=extra)
         if fn == 'inc':
             il, ol = src['il'], src['ol']
             if src['gen']:
